@@ -21,6 +21,7 @@ CFG = """CONSTANTS Which = "{which}"
  Apply <- ApplyStr
  Draw <- DrawStr
  FromScratch = {fs}
+ ErrVal = "ERR"
 INIT SInit
 NEXT Next
 INVARIANT Coherent
@@ -28,7 +29,7 @@ INVARIANT FlagIffDirty
 INVARIANT AncestralOK
 INVARIANT SkipUntouched
 """
-TV_CFG = "CONSTANTS None = 0\n Apply <- ApplyInt\n Draw <- DrawInt\n FromScratch = TRUE\n"
+TV_CFG = "CONSTANTS None = 0\n Apply <- ApplyInt\n Draw <- DrawInt\n FromScratch = TRUE\n ErrVal <- ErrInt\n"
 
 
 def run(chk: Check):
